@@ -22,7 +22,7 @@ def run_seed(sid):
             return sid, None, 'patch does not apply: ' + a.stderr.strip()[:200]
         det = {}
         for p in props:
-            o = subprocess.run([f'{VERIF}/bin/rarecheck', '-property', p, '-repo', wt, '-no-evidence'], capture_output=True, text=True)
+            o = subprocess.run([os.environ.get('RARECHECK_BIN', f'{VERIF}/bin/rarecheck'), '-property', p, '-repo', wt, '-no-evidence'], capture_output=True, text=True)
             if o.returncode != 0:
                 rules = sorted({l.split()[1] for l in o.stdout.splitlines() if l.startswith('[violation]') or l.startswith('[undecided]')})
                 det[p] = rules
